@@ -1,5 +1,6 @@
 """Per-property checks: generators, correspondence projections and direct oracles."""
 import copy
+import os
 import itertools
 import json
 
@@ -524,7 +525,27 @@ def check_C01(ctx):
             ctx.violation("sentence", "spec (a repeated group of %d optional flags and X), command line %r: the implementation %s it (X = %r), but it is %sa "
                           "sentence of the spec" % (len(c["root"]["decls"]) - 1, c["argv"], "accepts" if accepted(a) else "rejects",
                                                     a["values"].get("app|X"), "" if c["_good"] else "not "), case=c, impl=a["outcome"])
-    ctx.stream("large repeated groups, judged by construction", len(big))
+    # a few of them against the model as well, with a deadline of a minute for its list-based construction
+    sub = [c for c in big if len(c["root"]["decls"]) - 1 <= (40 if ctx.thorough else 34)][::max(1, len(big) // (24 if ctx.thorough else 8))]
+    old_to = os.environ.get("VERIF_MODEL_TIMEOUT_S")
+    os.environ["VERIF_MODEL_TIMEOUT_S"] = "60"
+    try:
+        bm = core.run_model(sub)
+    finally:
+        if old_to is None:
+            os.environ.pop("VERIF_MODEL_TIMEOUT_S", None)
+        else:
+            os.environ["VERIF_MODEL_TIMEOUT_S"] = old_to
+    n_bm = 0
+    for c in sub:
+        a, b = obs_impl(bres[c["id"]]), obs_model(bm[c["id"]])
+        if a["outcome"][0] == "timeout" or b["outcome"][0] == "model-error":
+            continue
+        n_bm += 1
+        d_ = diff_obs(a, b, ["outcome", "trace", "values"])
+        if d_:
+            ctx.mismatch("Impl and model differ on %s (large repeated groups)" % ",".join(d_), case=c, impl={k: a[k] for k in d_}, model={k: b[k] for k in d_})
+    ctx.stream("large repeated groups, judged by construction", len(big), compared_with_the_model=n_bm)
     blank += dd_env_cases(ctx, ctx.scale(6000, 60000))
     number(blank, start=len(cases) + len(sc))
     res3 = correspond(ctx, blank, fields, "specs of blanks and padded specs")
